@@ -62,6 +62,10 @@ type Spec struct {
 	// SkipCopyMode (C04): none | converter | methods (method-level setting on a subset)
 	SkipCopyMode string
 	MethodSkip   map[string]bool
+	// MethodWrapOff (C07, wrapErrors worlds): methods carrying `goverter:wrapErrors no`; the
+	// location oracle is skipped for them (what their own segment contributes is unspecified),
+	// all other methods keep the converter-level setting and the full oracle.
+	MethodWrapOff map[string]bool
 	PtrRoot   map[int]bool
 	nextID    int
 	rng       *rand.Rand
@@ -176,6 +180,12 @@ func NewSpec(seed uint64, prop string) *Spec {
 	if s.SkipCopyMode == "methods" {
 		for _, m := range s.methods(false) {
 			s.MethodSkip[m.Name] = r.IntN(2) == 0
+		}
+	}
+	s.MethodWrapOff = map[string]bool{}
+	if prop == "C07" && s.Wrap == "wrapErrors" && r.IntN(2) == 0 {
+		for _, m := range s.methods(false) {
+			s.MethodWrapOff[m.Name] = r.IntN(3) == 0
 		}
 	}
 	if prop == "C07" && len(s.Leaves) == 0 {
@@ -569,6 +579,9 @@ func (s *Spec) methods(twin bool) []methodSpec {
 		if s.MethodSkip[ms[i].Name] {
 			ms[i].Doc = append(ms[i].Doc, "goverter:skipCopySameType")
 		}
+		if s.MethodWrapOff[ms[i].Name] && !twin {
+			ms[i].Doc = append(ms[i].Doc, "goverter:wrapErrors no")
+		}
 	}
 	sort.Slice(ms, func(i, j int) bool { return ms[i].Name < ms[j].Name })
 	return ms
@@ -775,7 +788,7 @@ func (s *Spec) EnumTargetSource() string {
 // clause matrix.
 func ManualSpec(kind, position string, ignoreMissing bool, format, wrap string) *Spec {
 	s := &Spec{Prop: "C07", Structs: map[int]*node{}, NBasics: map[int]string{}, Leaves: map[int]*leafInfo{}, Enums: map[int]int{},
-		PtrRoot: map[int]bool{}, MethodSkip: map[string]bool{}, Format: format, Wrap: wrap, IgnoreMissing: ignoreMissing, SkipCopyMode: "none",
+		PtrRoot: map[int]bool{}, MethodSkip: map[string]bool{}, MethodWrapOff: map[string]bool{}, Format: format, Wrap: wrap, IgnoreMissing: ignoreMissing, SkipCopyMode: "none",
 		rng: rand.New(rand.NewPCG(1, 2))}
 	root := &node{Kind: "struct", ID: s.id()}
 	s.Structs[root.ID] = root
